@@ -1,6 +1,7 @@
 (* Props/C06.v — Storage reads agree with a graph model.
    Only statements, `exact`, and Print Assumptions. *)
-From NDB Require Import Engine.Graph Engine.Model Engine.Known Engine.Witness.
+From Coq Require Import Permutation.
+From NDB Require Import Engine.Graph Engine.Model Engine.Known Engine.Witness Engine.Refine_proofs.
 
 (* every read interface, as collected by the canonical dump, agrees with the spec graph S *)
 Definition C06_full_statement : Prop :=
@@ -19,3 +20,23 @@ Proof.
   - exists h_labord. destruct w_labelorder as (A & B & _ & _ & E & F). repeat split; assumption.
 Qed.
 Print Assumptions C06_refuted.
+
+(* conditional theorem over ALL histories of the executable fragment `grow_hist`: commit-only
+   histories of node creations (0 or 1 label), relationship creations (parallel, self loops) and
+   property sets / removals on nodes and relationships (no deletes, no label changes after creation —
+   the fragment contains none of the known classes).  Every read interface except the two whole-map
+   reads agrees with the spec graph; the edge views agree as multisets. *)
+Definition C06_refines_partial_statement : Prop :=
+  forall h, grow_hist h = true -> wf_hist h = true ->
+    let s := run h in let g := spec h in
+    m_nodes s = g_node_ids g /\
+    (forall n, Permutation (m_out s n) (g_out g n)) /\
+    (forall n, Permutation (m_in s n) (g_in g n)) /\
+    (forall n k, m_nprop s n k = g_nprop g n k) /\
+    (forall e k, m_eprop s e k = g_eprop g e k) /\
+    (forall n, g_labels g n = filter (fun l => negb (l =? UNLABELED)) (m_labels s n)) /\
+    (forall n, m_ext s n = g_ext g n) /\
+    (forall ext, m_lookup s ext = g_lookup g ext).
+Theorem C06_refines_partial : C06_refines_partial_statement.
+Proof. exact refines_grow. Qed.
+Print Assumptions C06_refines_partial.
